@@ -22,6 +22,9 @@ func init() {
 			// the control writer sits on Writer.Write / Flush: no frame leaves before Flush, one final frame then
 			writerMethodRules(c, "C08")
 			writerWriteRules(c, "C08")
+			// the handler function ControlFrameHandler hands out serves every control frame of the
+			// connection: it must not remember the reader of an earlier one
+			c19ReturnedClosures(c)
 		},
 	})
 }
